@@ -57,7 +57,8 @@ def main():
     src = re.sub(r'//[^\n]*', '', open(os.path.join(REPO, 'src/ir/types.rs')).read())
     # ---------------- eval
     ev = fn_body(src, 'eval')
-    body = match_body(ev, 'match reader.read().unwrap()')
+    hdr = 'match reader.read()?' if 'match reader.read()?' in ev else 'match reader.read().unwrap()'
+    body = match_body(ev, hdr)
     eval_rows = []  # (operator, InitInstr variant, value variant or None, conversion)
     for pat, b in split_arms(body):
         op = re.match(r'(\w+)', pat).group(1)
@@ -65,9 +66,10 @@ def main():
             if b.rstrip(',') != 'break':
                 die(f'eval: End arm is `{b}`')
             continue
-        if op == '_':
-            if 'panic!' not in b:
-                die('eval: the catch-all arm no longer panics')
+        if op in ('_', 'op') and '::' not in pat:
+            # every operator without an arm of its own is refused (an error since the repair of F2a; a panic before)
+            if 'panic!' not in b and 'return Err(' not in b:
+                die('eval: the catch-all arm neither fails nor panics')
             continue
         m = re.match(r'(?:\{ )?InitInstr::(\w+)', b)
         if not m:
